@@ -79,11 +79,12 @@ type Run struct {
 	exhaustive  bool
 	notExh      []string
 
-	scen   map[string]Replayer
-	viol   []Violation
-	nviol  int
-	knownN map[string]int
-	kf     knownFile
+	scen    map[string]Replayer
+	viol    []Violation
+	perScen map[string]int
+	nviol   int
+	knownN  map[string]int
+	kf      knownFile
 
 	Broken []string // harness-level failures (not violations): make the check exit 2
 }
@@ -211,7 +212,11 @@ func (r *Run) Fail(scenario, sig string, c any, want, got string) {
 		}
 	}
 	r.nviol++
-	if len(r.viol) < 40 {
+	if r.perScen == nil {
+		r.perScen = map[string]int{}
+	}
+	r.perScen[scenario]++
+	if r.perScen[scenario] <= 12 { // a few per scenario, so that one noisy scenario cannot crowd out the others
 		r.viol = append(r.viol, Violation{Property: r.ID, Scenario: scenario, Sig: sig, Case: raw, Want: want, Got: got})
 	}
 }
